@@ -10,7 +10,7 @@ COQ_RUN = "run10"
 COQ_CASE_TYPE = "case10"
 SHARD = 60
 CASE_TIMEOUT = 8        # a call that does not return within 8 s counts as non-terminating (ordinary cases: milliseconds)
-RULE = ("node lists of 1..6 nodes: control points on a quarter-integer grid in [-64, 64] (the float run is then exact and is compared node for node with the "
+RULE = ("pieces whose half split lands exactly on one of their own end nodes (3(p1+p2)+p3 = 7 p0 and mirror images, closed pieces with opposite handles); node lists of 1..6 nodes: control points on a quarter-integer grid in [-64, 64] (the float run is then exact and is compared node for node with the "
         "exact model), and general floats (judged by the refinement checker with eps = 1e-9 x scale): loops, cusps, coincident endpoints, already-flat pieces, "
         "handles overshooting the chord; small shapes (handles of a few 2^-11) translated to +-2^20 / 10^6 with flatness 2^-13..2^-10; flatness from 1/4 to 64; non-trivial = at least one piece was split")
 TRUSTED = ["on the quarter-integer grid every float operation of the run is exact (values stay below 2^53 ulp) so float = rational",
@@ -73,6 +73,18 @@ def generate(rng, tier):
         p2 = at(t2, rng.choice([flat, -flat, flat / 2, F(0)]))
         nodes = [[(ox, oy), (ox, oy), p1], [p2, (ox + L[0], oy + L[1]), (ox + L[0], oy + L[1])]]
         cases.append({"nodes": nodes, "flat": flat, "exact": True, "family": "flatness-knife-edge/%s/L2=%d" % (k, ln2)})
+    # curves that pass through one of their own end nodes at the middle of a piece (the half split lands exactly on p0 or p3:
+    # 3 (p1 + p2) + p3 = 7 p0, or the mirror image; closed pieces with opposite handles): such a piece is not small and must still be split
+    for _ in range(max(12, n // 10)):
+        q = lambda lo, hi: F(rng.randint(lo * 4, hi * 4), 4)
+        o = (q(-20, 20), q(-20, 20)); d = rng.choice([(F(0), F(0)), (q(-3, 3), q(-3, 3)), (F(2), F(0))])
+        p1 = (o[0] + q(-8, 8), o[1] + q(-8, 8))
+        p0 = o; p3 = (o[0] + 3 * d[0], o[1] + 3 * d[1]); p2 = (2 * o[0] - d[0] - p1[0], 2 * o[1] - d[1] - p1[1])
+        piece = [p0, p1, p2, p3]
+        if rng.random() < 0.5: piece = piece[::-1]               # the mirror image: the split lands on the end node
+        pre = _nodes(rng, "grid")[:rng.choice([0, 0, 1])]; post = _nodes(rng, "grid")[:rng.choice([0, 0, 1])]
+        nodes = pre + [[piece[0], piece[0], piece[1]], [piece[2], piece[3], piece[3]]] + post
+        cases.append({"nodes": nodes, "flat": F(rng.choice([1, 1, 2, 4])) / rng.choice([1, 2, 4, 8]), "exact": True, "family": "split-lands-on-own-end-node"})
     for _ in range(n // 6):
         nodes = _far_nodes(rng)
         cases.append({"nodes": nodes, "flat": F(1, 2 ** rng.choice([13, 12, 11, 10])), "exact": True, "family": "far-from-origin/n=%d" % len(nodes)})
